@@ -727,10 +727,11 @@ def pca_solve(newflux, newivar, maxiter=0, niter=10, nkeep=3,
                 eigenval = tmp.eigenvalues
             else:
                 tmp = pcomp(filtflux[goodobj, :].T)  # , standardize=True)
-                pres = np.zeros((nobj, npix), dtype='d')
-                pres[goodobj, :] = tmp.derived
+                ngood = goodobj.sum()
+                pres = np.zeros((npix, nobj), dtype='d')
+                pres[:, 0:ngood] = tmp.derived
                 eigenval = np.zeros((nobj,), dtype='d')
-                eigenval[goodobj] = tmp.eigenvalues
+                eigenval[0:ngood] = tmp.eigenvalues
             maskivar = newivar * outmask
             sqivar = np.sqrt(maskivar)
             for iobj in range(nobj):
